@@ -1329,6 +1329,9 @@ static void build_large (int thorough, const char *which)
 		int r;
 		for (r = 131; r <= (thorough ? 4200 : 2100); r++) {
 			int k = 2 * r, n = 3 * r;
+#ifdef __SANITIZE_ADDRESS__
+			if (!thorough && r % 3) continue;	/* the AddressSanitizer runs (C07) visit every third n-k in the quick tier */
+#endif
 			c0 = NCF; add_cfg (3, 0, k, r, 3 + r % 3, 1 + r % 7, 0, 0, 0, 0); CF[c0].len = 8;
 			add_scen (c0, "Sw%d+%d,F", r / 3, k + k / 20); add_scen (c0, "Sw%d+%d,F", (int) (((long) r * 7919) % n), k + k / 10);
 			if (r % 4 == 0 || thorough) add_scen (c0, "Bw%d+%d,F", r, k + k / 5);
